@@ -7,13 +7,20 @@ import os
 import engine_session
 from common import (Infra, NCPU, Result, Scratch, build_harness, cfg, match_finding, q, run_harness, run_tlc, seed, tlc_ok)
 
-ALL = ["m2", "m1", "bsv", "m_1", "m_2", "bch", "x0", "f1", "f1x", "g2", "g1", "g0", "late", "orph", "gen1"]
-REAL = ["m2", "m1", "bsv", "m_1", "m_2", "bch"]
-FOCUS = ["m2", "m1", "bsv", "m_1", "bch", "x0", "f1", "f1x", "g2", "g1", "g0"]
+ALL = ["m3", "m2", "m1", "bsv", "m_1", "m_2", "bch", "x0", "f1", "f1x", "g3", "g2", "g1", "g0", "late", "orph", "gen1", "h2", "h1", "h0", "clean"]
+REAL = ["m3", "m2", "m1", "bsv", "m_1", "m_2", "bch"]
+FOCUS = ["m3", "m2", "m1", "bsv", "bch", "x0", "f1", "f1x", "g3", "g2", "g1", "g0"]
+# a fork (g2 g1) of the real chain, a heavier fork (h1) of that fork, maintenance at any point, then offers at the split height
+NESTED = ["m3", "m2", "m1", "bsv", "bch", "g3", "g2", "g1", "g0", "h2", "h1", "h0", "clean"]
 
 
 def sg_cfg(depth, names, **kw):
-    return cfg({"Depth": depth, "Offerable": {q(n) for n in names}}, spec="Spec", **kw)
+    return cfg({"Depth": depth, "Offerable": {q(n) for n in names}, "Prefix": "NOPREFIX"}, spec="Spec", **kw).replace(
+        "Prefix = NOPREFIX", "Prefix <- ThePrefix")
+
+
+def sg_module(prefix):
+    return "---- MODULE SGRun ----\nEXTENDS SplitGuard\nThePrefix == <<%s>>\n====\n" % ",".join(q(n) for n in prefix)
 
 
 def run(tier):
@@ -22,23 +29,30 @@ def run(tier):
     quick = tier == "quick"
     with Scratch("C03") as scratch:
         binary = build_harness(scratch)
-        out, st = run_tlc(scratch, "SplitGuard", sg_cfg(4 if quick else 5, ALL,
-                                                        invariants=["AtSplitOnlyBSV", "ForeignAlwaysRefused", "BSVAccepted"]),
-                          workers=NCPU, timeout=2400, name="sgexh")
+        out, st = run_tlc(scratch, "SGRun", sg_cfg(4 if quick else 5, ALL,
+                                                   invariants=["AtSplitOnlyBSV", "ForeignAlwaysRefused", "BSVAccepted"]),
+                          files={"SGRun.tla": sg_module([])}, workers=NCPU, timeout=2400, name="sgexh")
         tlc_ok(out, st, "SplitGuard")
         res.coverage["states"] = st["distinct"]
         res.coverage["transitions"] = st["generated"]
         res.coverage["exhaustive_cfgs"] = ["SplitGuard all %d pool headers, %d offers: %d distinct" % (len(ALL), 4 if quick else 5, st["distinct"])]
         total = 0
         runs = []
-        plans = [("bfs", REAL, 4 if quick else 5, 0), ("bfs", FOCUS, 4 if quick else 5, 0),
-                 ("sim", ALL, 10, 600 if quick else 6000), ("sim", FOCUS, 9, 400 if quick else 4000)]
-        for i, (mode, names, depth, num) in enumerate(plans):
+        P0 = []
+        # a fork (g3 g2 g1) next to the real 556764, then every order of a heavier fork of that fork, maintenance and offers
+        PN = ["m3", "g3", "g2"]
+        plans = [("bfs", REAL, 5 if quick else 6, 0, P0), ("bfs", FOCUS, 4 if quick else 5, 0, P0),
+                 ("sim", ALL, 10, 600 if quick else 6000, P0), ("sim", FOCUS, 9, 400 if quick else 4000, P0),
+                 ("sim", NESTED, 9, 600 if quick else 6000, P0),
+                 ("bfs", ["g1", "g0", "h2", "h1", "h0", "clean", "m2"], 7 if quick else 9, 0, PN),
+                 ("sim", ["g1", "g0", "h2", "h1", "h0", "clean", "m2", "m1", "bsv", "bch"], 12, 600 if quick else 6000, PN)]
+        for i, (mode, names, depth, num, prefix) in enumerate(plans):
+            mod = {"SGRun.tla": sg_module(prefix)}
             if mode == "bfs":
-                out, st = run_tlc(scratch, "SplitGuard", sg_cfg(depth, names, invariants=["Emit"]), workers=1, timeout=2400,
+                out, st = run_tlc(scratch, "SGRun", sg_cfg(depth, names, invariants=["Emit"]), files=mod, workers=1, timeout=2400,
                                   name="sg%d" % i)
             else:
-                out, st = run_tlc(scratch, "SplitGuard", sg_cfg(depth, names, invariants=["Emit"]), workers=1, simulate=num,
+                out, st = run_tlc(scratch, "SGRun", sg_cfg(depth, names, invariants=["Emit"]), files=mod, workers=1, simulate=num,
                                   depth=depth + 1, tlc_seed=sd * 10 + i, timeout=2400, name="sg%d" % i)
             if st.get("error"):
                 raise Infra("SplitGuard generation failed: %s\n%s" % (st, out[-2000:]))
